@@ -242,9 +242,9 @@ TAGS = {"stale-shutdown-notice", "panic-after-stale-shutdown-notice", "report-ov
 MC_LINES = ["SPECIFICATION Spec", "INVARIANTS MonOK NoUnknownPanic QuiesceOK", "CHECK_DEADLOCK FALSE"]
 
 
-def mc_consts(auto=(), dial=False, mo=1, mcl=1, cut=0, rec=0, fail=0, sub=4, stall=0, tags=TAGS):
-    return {"AutoSet": set(auto), "Dial": dial, "MaxOpen": mo, "MaxClose": mcl, "MaxCut": cut, "MaxRec": rec, "MaxFail": fail,
-            "MaxSub": sub, "MaxStall": stall, "KnownTags": set(tags)}
+def mc_consts(auto=(), dial=False, mo=1, mcl=1, cut=0, rec=0, fail=0, sub=4, stall=0, tags=TAGS, moy=None, mut="none"):
+    return {"AutoSet": set(auto), "Dial": dial, "MaxOpen": mo, "MaxOpenY": mo if moy is None else moy, "MaxClose": mcl, "MaxCut": cut, "MaxRec": rec, "MaxFail": fail,
+            "MaxSub": sub, "MaxStall": stall, "KnownTags": set(tags), "Mut": mut}
 
 
 def split_endpoints(lines):
@@ -437,3 +437,16 @@ def script_from_stream_behaviour(b, idx, seed, consts):
     steps.append(op("quiesce"))
     c = cfg(seed * 100000 + 90000 + idx, auto=("X", "Y") if idx % 2 else (), sync=consts["S"], asyn=consts["A"], mx=64, perturb=idx % 3)
     return {"id": "stlc-%d" % idx, "cfg": c, "steps": steps}
+
+
+def save_known_repros(ctx, violations):
+    """keep one reproduction (scenario script + rejected log) per known signature under replays/"""
+    known = load_known(ctx.pid)
+    done = set()
+    for v in violations:
+        sig = v["sig"]
+        if sig in known and sig not in done and v["replay_obj"].get("script"):
+            done.add(sig)
+            p = os.path.join(REPLAYS, "%s_known_%s.json" % (ctx.pid, sig))
+            if not os.path.exists(p):
+                save_replay(ctx, "known_%s" % sig, v["replay_obj"])
